@@ -45,18 +45,42 @@ def _bandit(rng):
     return sp
 
 
+def _long_walk(rng):
+    """a corridor walked at random (exploration rate 1): one episode lasts TENS OF THOUSANDS of steps"""
+    n = rng.choice([130, 150, 170])
+    sp = G.Spec()
+    sp.family = "long-walk"
+    sp.states = list(range(n + 1))
+    for i in range(n + 1):
+        sp.acts[i] = ("L", "R")
+        for a, t in (("L", max(i - 1, 0)), ("R", min(i + 1, n))):
+            t = i if i == n else t
+            sp.P[(i, a)] = [(t, 1.0)]
+            sp.kind[(i, a)] = "dict"
+            sp.R[(i, a, t)] = 0.0 if i == n else -1.0
+    sp.flag = {n}
+    sp.init = [(0, 1.0)]
+    sp.gamma = rng.choice([0.9, 0.99])
+    sp.meta["abs_kinds"] = ["zero"]
+    return sp
+
+
 def run_case(case, rng):
     from msdm.algorithms import tdlearning as td
     from mon.gen import build as Bd
 
     n_max = 10 if case.tier == "thorough" and rng.random() < 0.3 else 6
     near_tie = rng.random() < 0.15
-    if near_tie:
+    long_walk = rng.random() < (0.012 if case.tier == "quick" else 0.001)
+    if long_walk:
+        sp, near_tie = _long_walk(rng), False
+        case.count("episodes_of_tens_of_thousands_of_steps")
+    elif near_tie:
         sp = _bandit(rng)
     else:
         sp = G.random_spec(rng, "proper", n_max=n_max, allow_implicit=False,
                            reward_scale=rng.choice([1.0, 1.0, 1.0, 100.0]))
-    if rng.random() < 0.3 and sp.flag:
+    if rng.random() < 0.3 and sp.flag and not long_walk:
         ab = rng.choice(sorted(sp.flag, key=repr))
         cur = [s for s, p in sp.init if p > 0]
         if ab not in cur:
@@ -106,6 +130,8 @@ def run_case(case, rng):
         # equally paid arms pulled a different number of times under a large step size: Q-values that differ
         # only in the 9th-12th digit, so "exactly the maximal-Q actions" is a sharp statement
         alpha, eps, temp, episodes = rng.choice([0.9, 0.99, 0.8]), 1.0, 0.0, rng.randint(25, 45)
+    if long_walk:
+        alpha, eps, temp, episodes = 0.5, 1.0, 0.0, 1
     seed = rng.choice([0, 1, 7, rng.randrange(2 ** 31)])
     if rng.random() < 0.5:
         q0c = rng.choice([0.0, 1.0, -2.0, 10.0])
@@ -216,8 +242,9 @@ def run_case(case, rng):
                     case.fail("online:double-q-update-matches-neither-table-rule",
                               f"step {state['steps']}: q1={l1!r} q2={l2!r} shadow=({r1[a]!r},{r2[a]!r}) cand1={cand1!r} cand2={cand2!r}", **facts)
                     return
-                compare_tables(q1, sh1, "q1")
-                compare_tables(q2, sh2, "q2")
+                if not long_walk or state["steps"] % 499 == 0:        # (the whole live table at every step; every 499th on the long walk)
+                    compare_tables(q1, sh1, "q1")
+                    compare_tables(q2, sh2, "q2")
                 return
             q = lv["q"]
             row, nrow = sh1.row(s), sh1.row(ns)
@@ -233,7 +260,8 @@ def run_case(case, rng):
                 d = eps_softmax(nrow)
                 target = r + gamma * sum(nrow[x] * p for x, p in d.items() if p > 0)
             row[a] = row[a] + alpha * (target - row[a])
-            compare_tables(q, sh1, "q")
+            if not long_walk or state["steps"] % 499 == 0:
+                compare_tables(q, sh1, "q")
 
         def end_of_episode(self, lv):
             td.EpisodeRewardEventListener.end_of_episode(self, lv)
@@ -251,7 +279,7 @@ def run_case(case, rng):
                                                          initial_q=initial_q, seed=seed))
     learner = cls(event_listener_class=Probe, **tkw)
     Dflt.in_force(case, "TD", learner, passed=tkw, learner=learner_name)
-    if rng.random() < 0.2 and not near_tie:
+    if rng.random() < 0.2 and not near_tie and not long_walk:
         # the same learner object is first trained on a sibling problem (one more absorbing state)
         import copy
         sib = copy.deepcopy(sp)
@@ -271,7 +299,7 @@ def run_case(case, rng):
     res = case.call(f"{learner_name}.train_on", learner.train_on, train_target, facts=facts)
     if res is case.FAIL:
         return
-    if rng.random() < 0.15 and not near_tie:
+    if rng.random() < 0.15 and not near_tie and not long_walk:
         # the learner goes on to another problem (opposite rewards, same labels) AFTER this result was returned: the result
         # judged below - Q-table and policy - is the one returned for THIS problem
         import copy as _copy2
